@@ -443,8 +443,9 @@ func DecodeObject(r io.Reader) (ugo.Object, error) {
 		} else if err := gob.NewDecoder(r).Decode(&v); err != nil {
 			return nil, err
 		}
-		if v == nil {
-			// gob decodes an interface value without a type name as nil
+		if hasNilObject(v) {
+			// gob decodes an interface value without a type name as nil,
+			// alone or as an element of a container
 			return nil, errors.New("decode error: nil object")
 		}
 		return v, nil
@@ -1369,6 +1370,38 @@ func checkSize(r io.Reader, size int64) error {
 		return io.ErrUnexpectedEOF
 	}
 	return nil
+}
+
+// hasNilObject reports whether v is nil or a container holding a nil object.
+func hasNilObject(v ugo.Object) bool {
+	switch v := v.(type) {
+	case nil:
+		return true
+	case ugo.Array:
+		for _, e := range v {
+			if hasNilObject(e) {
+				return true
+			}
+		}
+	case ugo.Map:
+		for _, e := range v {
+			if hasNilObject(e) {
+				return true
+			}
+		}
+	case *ugo.SyncMap:
+		if v == nil {
+			return true
+		}
+		for _, e := range v.Value {
+			if hasNilObject(e) {
+				return true
+			}
+		}
+	case *ugo.ObjectPtr:
+		return v == nil || v.Value == nil || hasNilObject(*v.Value)
+	}
+	return false
 }
 
 // readSized returns prefix followed by the next size bytes of r. If r cannot
